@@ -16,5 +16,51 @@ for (w, n) in ((1, 5), (7, 0), (13, 5), (13, 6), (32, 2), (63, 3), (64, 1), (64,
 inst(P, 'c06_concat_mixed', 'c06::concat_mixed(65, 13, 5, 9)', unwind=258, cap=900, desc='RawVector(65 bits) | IntVector(13x5) | Vec<u8>(9) pairwise concatenated in one stream', shape={'raw': 65, 'int': [13, 5], 'bytes': 9})
 inst(P, 'c06_size_by_params', 'c06::size_by_params()', unwind=2, cap=600, desc='RawVector::size_by_params all capacities; IntVector::size_by_params all (n < 2^57, w 1..=64)')
 
+from kvlib import native
+from kvlib.props.c02 import SPARSE, sparse_uw
+from kvlib.props.c04 import uw as wm_uw, feasible_fw, bit_len
+from kvlib.props.c03 import rl_uw
+
+
+class SC:
+    def __init__(self, n, m):
+        self.a = (n, m)
+
+    def __str__(self):
+        return 'c06::sparse(%d, %d, %d)' % (self.a[0], self.a[1], native.sparse_width(self.a[0], self.a[1], False))
+
+
+class LUW(dict):
+    def __init__(self, n, m):
+        super().__init__()
+        self._a, self._done = (n, m), False
+
+    def items(self):
+        if not self._done:
+            self._done = True
+            self.update(sparse_uw(self._a[0], self._a[1], None, False))
+            self.update({r'memcmp': 260, r'c06::': 8})
+        return super().items()
+
+    def __bool__(self):
+        return True
+
+
+for (n, m) in ((12, 3), (0, 0), ((1 << 64) - 1, 1)):
+    inst(P, 'c06_sparse_n%d_m%d' % (n, m), SC(n, m), tier='thorough', unwind=258, stubs=SPARSE, cap=900, cap_thorough=3600, mem=30,
+         desc='SparseVector (built by the real builder, universe %d, %d symbolic positions): serialize -> exact size -> load -> == and select' % (n, m), shape={'universe': n, 'ones': m}).unwindset = LUW(n, m)
+for (n, maxv) in ((3, 1), (4, 2)):
+    fw = sorted(feasible_fw(n, maxv))[0]
+    d = wm_uw(n, bit_len(maxv))
+    d.update({r'memcmp': 260, r'c06::': 8})
+    inst(P, 'c06_wm_n%d_max%d' % (n, maxv), 'c06::wavelet_matrix(%d, %d, %d)' % (n, maxv, fw), tier='thorough', unwind=258, unwindset=d, stubs=['bvspec'], cap=900, cap_thorough=3600, mem=30,
+         desc='WaveletMatrix (%d symbolic items <= %d, assembled from parts): serialize -> exact size -> load -> == and get' % (n, maxv), shape={'len': n, 'max_value': maxv})
+for name, (units, sw) in {'one_small': ([(1, 1)], 1), 'two_small': ([(1, 1), (1, 2)], 1)}.items():
+    d = rl_uw(units)
+    d.update({r'memcmp': 260, r'c06::': 8})
+    inst(P, 'c06_rl_%s' % name, 'c06::rl(&[%s], %d)' % (', '.join('(%d, %d)' % u for u in units), sw), tier='thorough', unwind=258, unwindset=d,
+         stubs=['simple_sds::rl_vector::index::SampleIndex::new => stubs::sample_index_new_contract'], cap=900, cap_thorough=3600, mem=30,
+         desc='RLVector (%s, symbolic runs, assembled from parts): serialize -> exact size -> load -> ==' % name, shape={'runs': units})
+
 extra(P, assumptions=['writer = &mut [u8] over a fixed 256-byte array, reader = &[u8]: no I/O, no allocation failure', 'String content restricted to ASCII'],
       coverage={'outside_bounds': ['values whose serialization exceeds 256 bytes', 'non-ASCII strings']})
